@@ -1,5 +1,5 @@
 import NfcVerif.Lemmas.FnBridgeIsoSm
-import NfcVerif.Props.C12AsFound
+import NfcVerif.Props.C12
 import NfcVerif.Props.C08
 /-!
 # Bridge theorems, group IsoSm (`nfc/tag/tt4.py`: the decisions of the ISO-DEP initiator and of the Type 4 Tag NDEF
@@ -1122,5 +1122,59 @@ example : planWriteGen ⟨15, 4, 100, true, true, 2, [0xE1, 4]⟩ [7, 8, 9]
     = .ok [⟨0, [0, 0, 7, 8]⟩, ⟨4, [9]⟩, ⟨0, [0, 3]⟩] := by decide +kernel
 example : planWriteGen ⟨15, 8, 100, true, true, 2, [0xE1, 4]⟩ [7, 8, 9] = .ok [⟨0, [0, 3, 7, 8, 9]⟩] := by decide +kernel
 
+
+/-! ## statements of C12 for the regenerated functions
+
+`exchange_bridge` (regenerated decision logic = `IsoDepR.exchange` with all repairs) and `IsoDep2.exchange_c08`
+(`IsoDepR.exchange` with all repairs = `IsoDep2.exchange`, the model of C12) -/
+
+section c12
+variable {σ : Type} (P : Peer σ)
+
+/-- the `exchange` built from the regenerated pieces is the `exchange` of the C12 model (`Model/IsoDepV2.lean`) -/
+theorem gen_exchange_is_c12 (F : Nat) (pcd : IsoDep2.Pcd) (hp : pcd.failed = none → pcd.pni < 2) (cmd : Bytes) (w : World σ) :
+    ((exchangeGen P pcd.wlim F pcd.toBase cmd w).1,
+     IsoDep2.Pcd.withBase (exchangeGen P pcd.wlim F pcd.toBase cmd w).2.1 pcd.wlim,
+     (exchangeGen P pcd.wlim F pcd.toBase cmd w).2.2) = IsoDep2.exchange P F pcd cmd w := by
+  have hb : IsoDepR.exchange P (IsoDep2.c08Cfg pcd.wlim F) pcd.toBase cmd w = exchangeGen P pcd.wlim F pcd.toBase cmd w :=
+    exchange_bridge P (IsoDep2.c08Cfg pcd.wlim F) rfl pcd.toBase hp cmd w
+  rw [← hb]
+  exact IsoDep2.exchange_c08 P F pcd cmd w
+
+/-- C12 `isodep_terminates` / `isodep_error_kind` for the regenerated `exchange`: against EVERY card no loop runs out of
+fuel, at most `exchFrames` blocks are sent, and the only exceptions for a command APDU are Type4TagCommandError with the
+reasons TIMEOUT / RECEIVE / PROTOCOL_ERROR -/
+theorem gen_terminates (F : Nat) (pcd : IsoDep2.Pcd) (cmd : Bytes) (w : World σ) (hF : IsoDep2.fuelNeed pcd ≤ F)
+    (hp : pcd.pni < 2) :
+    (exchangeGen P pcd.wlim F pcd.toBase cmd w).2.2 ≠ .error .outOfFuel ∧
+    (exchangeGen P pcd.wlim F pcd.toBase cmd w).1.trace.length ≤ w.trace.length + IsoDep2.exchFrames pcd cmd.length ∧
+    (0 < pcd.miu → cmd ≠ [] → C12.FlagOk pcd → ∀ e, (exchangeGen P pcd.wlim F pcd.toBase cmd w).2.2 = .error e →
+      e = .tagCmd TIMEOUT_ERROR ∨ e = .tagCmd RECEIVE_ERROR ∨ e = .tagCmd PROTOCOL_ERROR) := by
+  have h := gen_exchange_is_c12 P F pcd (fun _ => hp) cmd w
+  have h1 : (exchangeGen P pcd.wlim F pcd.toBase cmd w).1 = (IsoDep2.exchange P F pcd cmd w).1 := congrArg (·.1) h
+  have h2 : (exchangeGen P pcd.wlim F pcd.toBase cmd w).2.2 = (IsoDep2.exchange P F pcd cmd w).2.2 := congrArg (·.2.2) h
+  rw [h1, h2]
+  have ht := C12.isodep_terminates P F pcd cmd w hF hp
+  exact ⟨ht.1, ht.2, fun hm hc hfl => (C12.isodep_error_kind P F pcd cmd w hF hp hm hc hfl).1⟩
+
+/-- C12 `isodep_at_most_once` and `isodep_response_exact` for the regenerated `exchange` against the ISO/IEC 14443-4
+card: in every session state, under every fault script, the card executes the command at most once and a returned
+response is the card's response to exactly this execution -/
+theorem gen_at_most_once_exact (cfg : CardCfg) (F : Nat) (pcd : IsoDep2.Pcd) (cmd : Bytes) (w : World Card)
+    (hs : C12.SessInv pcd w.card) :
+    ((exchangeGen (isoPeer cfg) pcd.wlim F pcd.toBase cmd w).1.card.log = w.card.log ∨
+     (exchangeGen (isoPeer cfg) pcd.wlim F pcd.toBase cmd w).1.card.log = w.card.log ++ [cmd]) ∧
+    (∀ x, (exchangeGen (isoPeer cfg) pcd.wlim F pcd.toBase cmd w).2.2 = .ok x →
+      x = cfg.app w.card.log.length cmd ∧
+      (exchangeGen (isoPeer cfg) pcd.wlim F pcd.toBase cmd w).1.card.log = w.card.log ++ [cmd]) := by
+  have h := gen_exchange_is_c12 (isoPeer cfg) F pcd (fun _ => hs.1) cmd w
+  have h1 : (exchangeGen (isoPeer cfg) pcd.wlim F pcd.toBase cmd w).1 = (IsoDep2.exchange (isoPeer cfg) F pcd cmd w).1 :=
+    congrArg (·.1) h
+  have h2 : (exchangeGen (isoPeer cfg) pcd.wlim F pcd.toBase cmd w).2.2 = (IsoDep2.exchange (isoPeer cfg) F pcd cmd w).2.2 :=
+    congrArg (·.2.2) h
+  rw [h1, h2]
+  exact ⟨C12.isodep_at_most_once cfg F pcd cmd w hs, fun x hx => C12.isodep_response_exact cfg F pcd cmd w hs x hx⟩
+
+end c12
 
 end NfcVerif.FnBridge.IsoSm
